@@ -198,6 +198,9 @@ Section Inv.
     hoare (Inv V) (getvar n) (fun v s => Inv V s /\ lookup n (vars (sto s)) = Some v) (Inv V).
   Proof. intros n s HI. unfold getvar. destruct (lookup n (vars (sto s))) eqn:H; auto. Qed.
 
+  Lemma k_getvar : forall n, keeps (Inv V) (getvar n).
+  Proof. intros n s HI. unfold getvar. destruct (lookup n (vars (sto s))); exact HI. Qed.
+
   Lemma h_create_grad_tensor : forall v,
     hoare (Inv V) (create_grad_tensor v) (fun t s => Inv V s) (Inv V).
   Proof.
@@ -544,7 +547,7 @@ Section Forms.
     keeps Good (multi_jacobian_of_fn fl autograd O syms).
   Proof.
     intros syms Hp Hfin. unfold multi_jacobian_of_fn. rewrite Hfin.
-    apply k_bind; [eapply h_conseq; [apply h_map_m_getvar | | |]; simpl; intuition|].
+    apply k_bind; [apply k_map_m; intros n _; apply k_getvar|].
     intros param_values. apply k_map_m. intros [sym v] _.
     eapply k_bind_post; [apply h_getvar_eq|]. intros original Ho.
     assert (Hf : forall w, keeps Good (setvar sym w ;;; guarded true (call_f O []) (setvar sym original))).
@@ -632,8 +635,8 @@ Section Forms.
     - apply k_bind; [|intros ?; apply k_ret]. apply k_multi_grad_of_fn; assumption.
     - apply k_bind; [|intros ?; apply k_ret]. apply k_grad_sym; assumption.
     - apply k_bind; [|intros ?; apply k_ret]. apply k_grad_point; assumption.
-    - eapply k_bind_post with (Q := fun _ => True); [eapply h_conseq; [apply h_getvar_eq | | |]; simpl; intuition|].
-      intros v _. apply k_bind; [|intros ?; apply k_ret]. apply k_jacobian_of_fn. exact Hnj.
+    - apply k_bind; [apply k_getvar|].
+      intros v. apply k_bind; [|intros ?; apply k_ret]. apply k_jacobian_of_fn. exact Hnj.
     - apply k_bind; [|intros ?; apply k_ret]. apply k_multi_jacobian_of_fn; assumption.
   Qed.
 End Forms.
